@@ -162,7 +162,7 @@ def gen_replay(tier, rng):
                     yield Case(c.req, c.harness + SAN_SUFFIX, dom=False, oracle=c.oracle, model=False, nontrivial=True,
                                tags=('replay', 'replay:' + m.ID, 'known-defect-class', 'known:' + hit[0]), cmp=_cmp_replay)
                 continue
-            if _req_elems(c.req) > REPLAY_MAX_ELEMS[tier]:
+            if _req_elems(c.req) > REPLAY_MAX_ELEMS[tier] or (c.oracle is not None and len(c.oracle) > REPLAY_MAX_ANSWER_CHARS):
                 continue
             k += 1
             if k % stride:
@@ -402,7 +402,7 @@ def cands(kind, s, rng, full):
     return out
 
 
-MAX_ELEMS = 600
+MAX_ELEMS = 400
 
 
 def parse_chain(req):
@@ -711,10 +711,27 @@ def gen_all(tier, rng):
     yield from gen_replay(tier, rng)
 
 
+# The runner's time-out is per request stream: max(60 s, 20 s + 2 ms per request).  Sanitizer binaries on a loaded machine
+# need up to ~3 ms per request, so every stream is kept short enough for the flat 60 s to be a wide margin; a longer
+# stream is subsampled uniformly (known-defect-class requests are always kept).
+STREAM_CAP = {'quick': 12000, 'thorough': 10000}
+REPLAY_MAX_ANSWER_CHARS = 3000       # replayed requests whose reference answer is longer (huge results) are skipped
+
+
 def gen(tier, rng):
+    by = {}
     for c in gen_all(tier, rng):
         if _only(c.harness):
-            yield c
+            by.setdefault(c.harness, []).append(c)
+    cap = STREAM_CAP[tier]
+    for h, l in by.items():
+        keep = [c for c in l if 'known-defect-class' in c.tags]
+        rest = [c for c in l if 'known-defect-class' not in c.tags]
+        room = max(0, cap - len(keep))
+        if len(rest) > room:
+            rest = [rest[(i * len(rest)) // room] for i in range(room)]
+        yield from keep
+        yield from rest
 
 
 # ------------------------------------------------------------------------------------------------
@@ -765,7 +782,8 @@ RULE = ('every request runs in a binary built with ASan+UBSan, _GLIBCXX_ASSERTIO
         'flatten/slice/ref writing every element over four storage kinds; add / concatenate of two views (trees); assign_result over '
         'over-provisioned launches. Values are compared with NumPy, indexing chains also with the Lean model (composition of the per-kind '
         'IxViews). REPLAY: the accepted requests (reference answer is a value; not in a known-finding class of the owning property) of the '
-        'generators of C03, C04, C06, C07 (first TU), C08 through their own harness sources rebuilt with sanitizers + hook events; only '
+        'generators of C03, C04, C06, C07 (first TU), C08 through their own harness sources rebuilt with sanitizers + hook events '
+        '(operands <= 128 / 512 elements; at most 12000 / 10000 requests per binary, uniformly subsampled beyond that); only '
         'crash / exception / event is judged there. non-trivial = result differs from the source / owning property\'s definition.')
 EXHAUSTIVE = {'quick': False, 'thorough': False}
 ANCHORS = {
